@@ -9,6 +9,7 @@ def rnd(seed):
     if '-mut' in seed: return 1
     if '-r2' in seed: return 2
     if '-r3' in seed: return 3
+    if '-r4' in seed: return 4
     return 0
 
 rows = []
@@ -35,7 +36,7 @@ for f in sorted(glob.glob('/verif/seeded/C*/meta.json')):
 def fmt(xs):
     return ', '.join(xs) if xs else '— (missed)'
 
-for r in (1, 2, 3):
+for r in (1, 2, 3, 4):
     rs = [x for x in rows if x['round'] == r]
     if not rs:
         continue
